@@ -93,6 +93,25 @@ def streams(seed, tier):
             cases.append(mk(rng.randrange(2), nm, True, name=[a, b]))
     out.append(Stream("scalar-by-name", "run", "scalar.check", cases,
                       "every scalar instruction driven by NAME through the interpreter: boundary pool x boundary pool + random operands, deeper stacks beneath, missing-operand cases, NAME operands up to 16 KiB incl. multi-byte characters, both profiles"))
+    # two and three scalar instructions in a row on the SAME operand values (a result remembered from one call must not leak into the next)
+    unary = [x for x in FLT1 if x.startswith("FLOAT.")]
+    seq = []
+    vals = [fbits(x) for x in (0.5, 2.0, -1.25, 1e-3, 3.0, 0.1, 10.0)] + [0, 0x80000000]
+    for a in vals:
+        for f in unary:
+            for g in unary:
+                prog = [F(a), I(f), F(a), I(g), F(a), I(f)]
+                seq.append(case_run((len(seq)) % 2, state(exec=prog, float=[fbits(9.5)]), 0, len(prog)))
+                prog2 = [F(a), I("FLOAT.DUP"), I(f), I("FLOAT.SWAP"), I(g)]
+                seq.append(case_run((len(seq)) % 2, state(exec=prog2), 0, len(prog2)))
+    for _ in range({"quick": 300, "thorough": 5000, "search": 1500}[tier]):
+        a, b = rng.choice(vals + [rand_f32(rng)]), rng.choice(vals)
+        names2 = [rng.choice(FLT2 + FLT1 + ["FLOAT.DUP", "FLOAT.SWAP"]) for _ in range(rng.randrange(2, 6))]
+        prog = [F(a), F(b), F(a), F(b)] + [I(x) for x in names2]
+        seq.append(case_run(rng.randrange(2), state(exec=prog, float=[a, b]), 0, len(prog)))
+    out.append(Stream("scalar-sequences", "run", "run.check", seq,
+                      "every ordered pair of the unary FLOAT functions applied in turn to one and the same operand (x f x g x f; x DUP f SWAP g) for 9 operands, and random sequences of 2..5 "
+                      "FLOAT instructions over repeated operand values: step-by-step equality with the model"))
     # every *.FROM* conversion of the registry (the scalar ones above have a reference signature; CODE.FROM*, INTVECTOR.FROMINT,
     # ... are compared with the model): random whole states, in half of those with bindings the top NAME is a BOUND name
     from gen import stepgen
